@@ -42,6 +42,7 @@ def run(ctx):
     ctx.rule(fc.banks_stateless, "R-C05-pure")
     ctx.rule(scale_names)
     ctx.rule(scales_read_parameters)
+    ctx.rule(arguments_untouched)
 
 
 def scales_read_parameters(ctx, R="R-C05-spacing"):
@@ -50,6 +51,28 @@ def scales_read_parameters(ctx, R="R-C05-spacing"):
     the scaling object was built goes stale when the public attribute is re-assigned, and the two maps stop being inverses)"""
     from .c19 import no_derived_state
     no_derived_state(ctx, R)
+
+
+def arguments_untouched(ctx, R="R-C05-pure"):
+    """building a bank does not modify the objects it is given: a scaling function instance (its low_hz / slope are public
+    parameters the caller keeps using) is passed through the alias factory as it is, so an attribute written on it by the bank's
+    constructor rewrites the caller's scale"""
+    from ..eff import Effects
+    prog = ctx.prog
+    n = 0
+    for name in fc.BANKS:
+        c = prog.cls("filters." + name)
+        f = prog.find_method(c, "__init__")
+        if f is None:
+            continue
+        eff = Effects(prog)
+        for p in f.params[1:]:
+            ws, _ = eff.writes_to(f, p)
+            n += 1
+            ctx.check(not ws, R, f, ws[0].stmt if ws else f.node, "%s.__init__ leaves its argument `%s` unmodified" % (name, p),
+                      "%s.__init__ writes to the object passed as `%s` (%s): the caller's own instance is changed by building a bank from it"
+                      % (name, p, ", ".join(sorted({w.how for w in ws}))), robust=True)
+    ctx.floor(R + "/constructor-arguments", n, 8)
 
 
 def range_rule(ctx, R="R-C05-range"):
